@@ -517,6 +517,39 @@ impl World for C12World {
             }
             clients.push(script);
         }
+        // regrouped twins: the same rings in the same order, grouped differently into operands (a part moved from one
+        // operand to the other, a hole turned into a part of its own) — called back to back on one client
+        if r.chance(1, 6) {
+            let x = geom::gen_rect_operand(&mut r, g, 3);
+            let y = geom::translate(&geom::gen_rect_operand(&mut r, g, 2), 1.0, 1.0);
+            if x.len() >= 2 {
+                let base = operands.len() as u32;
+                let mut x2 = x.clone();
+                let moved = x2.pop().unwrap();
+                let mut y2 = vec![moved];
+                y2.extend(y.clone());
+                // holes of the first part as parts of their own
+                let mut x3: Operand = Vec::new();
+                for p in &x {
+                    for ring in p {
+                        x3.push(vec![ring.clone()]);
+                    }
+                }
+                operands.extend([x, y, x2, y2, x3]);
+                let op = r.below(4) as u8;
+                let mk = |l: u32, rr: u32| Step { retire: false, op, lhs: Src::Pool(base + l), rhs: Src::Pool(base + rr), pairing: 0, f32_: false, heap: 0, clone_ops: false, cancel: 0, save: false, repeat: 1 };
+                let c = r.below(clients.len() as u64) as usize;
+                let at = r.below(clients[c].len() as u64 + 1) as usize;
+                let twin = match r.below(3) {
+                    0 => vec![mk(0, 1), mk(2, 3)],
+                    1 => vec![mk(2, 3), mk(0, 1)],
+                    _ => vec![mk(0, 1), mk(4, 1)],
+                };
+                for (k, st) in twin.into_iter().enumerate() {
+                    clients[c].insert(at + k, st);
+                }
+            }
+        }
         let yield16 = if faulty { *fr.pick(&[0u64, 1, 1, 4, 16]) } else { 0 };
         C12World {
             operands, clients, yield16,
